@@ -240,7 +240,7 @@ def go_build(name, pkg, flags=(), cwd=None, tags="verif"):
 def run_stream(stream, tier, seed, extra_args=(), timeout=3000, replay=None):
     out = os.path.join(BUILD, "sum-%s-%s-%d-%d.json" % (stream, tier, seed, os.getpid()))
     cmd = [os.path.join(BUILD, "corr"), "-stream", stream, "-tier", tier, "-seed", str(seed),
-           "-driver", DRIVER, "-out", out]
+           "-driver", DRIVER, "-out", out, "-maxfail", "5000"]
     corpus = os.path.join(HARNESS, "corpus", stream)
     if replay:
         cmd += ["-replay", replay]
